@@ -121,72 +121,87 @@ Proof.
   - split; [auto|]. split; [exact H|]. intros ->. lia.
 Qed.
 
+Lemma pt_despawns e ds : forall S1' S1, pt_left e S1' S1 \/ pt_right e S1' S1 ->
+  (pt_left e S1' S1 -> pt_left e (fold_left abs_despawn ds S1') (fold_left abs_despawn ds S1)) /\
+  (pt_left e (fold_left abs_despawn ds S1') (fold_left abs_despawn ds S1) \/
+   pt_right e (fold_left abs_despawn ds S1') (fold_left abs_despawn ds S1)).
+Proof.
+  induction ds as [|d t IH]; intros S1' S1 H; cbn [fold_left]; [auto|].
+  destruct (pt_despawn e d S1' S1 H) as [A B]. destruct (IH _ _ B) as [A2 B2]. split; [intros HL; apply A2, A, HL|exact B2].
+Qed.
+
+Lemma pt_removals e rs : forall S1' S1, pt_left e S1' S1 \/ pt_right e S1' S1 ->
+  (pt_left e S1' S1 -> pt_left e (fold_left abs_removal rs S1') (fold_left abs_removal rs S1)) /\
+  (pt_left e (fold_left abs_removal rs S1') (fold_left abs_removal rs S1) \/
+   pt_right e (fold_left abs_removal rs S1') (fold_left abs_removal rs S1)).
+Proof.
+  induction rs as [|r t IH]; intros S1' S1 H; cbn [fold_left]; [auto|].
+  destruct (pt_removal e r S1' S1 H) as (A & B & _). destruct (IH _ _ B) as [A2 B2]. split; [intros HL; apply A2, A, HL|exact B2].
+Qed.
+
+Lemma pt_changes e cs : forall S1' S1, pt_left e S1' S1 \/ pt_right e S1' S1 ->
+  (pt_left e S1' S1 \/ In e (map fst cs)) -> pt_left e (fold_left abs_change cs S1') (fold_left abs_change cs S1).
+Proof.
+  induction cs as [|ch t IH]; intros S1' S1 H Hf; cbn [fold_left].
+  - destruct Hf as [Hf|[]]. exact Hf.
+  - destruct (pt_change e ch S1' S1 H) as (A & B & C). apply (IH _ _ B). cbn [map In] in Hf.
+    destruct Hf as [Hf|[Hf|Hf]]; [left; exact (A Hf)|left; apply C; symmetry; exact Hf|right; exact Hf].
+Qed.
+
 Lemma pt_apply e u S' S : pt_left e S' S \/ pt_right e S' S ->
   (pt_left e S' S \/ In e (map fst (u_changes u))) -> pt_left e (abs_apply S' u) (abs_apply S u).
 Proof.
   intros H0 Hfin. unfold abs_apply.
-  assert (Hd : forall ds S1' S1, pt_left e S1' S1 \/ pt_right e S1' S1 ->
-             (pt_left e S1' S1 -> pt_left e (fold_left abs_despawn ds S1') (fold_left abs_despawn ds S1)) /\
-             (pt_left e (fold_left abs_despawn ds S1') (fold_left abs_despawn ds S1) \/
-              pt_right e (fold_left abs_despawn ds S1') (fold_left abs_despawn ds S1))).
-  { induction ds as [|d t IH]; intros S1' S1 H; cbn [fold_left]; [auto|].
-    destruct (pt_despawn e d S1' S1 H) as [A B]. destruct (IH _ _ B) as [A2 B2]. split; [intros HL; apply A2, A, HL|exact B2]. }
-  assert (Hr : forall rs S1' S1, pt_left e S1' S1 \/ pt_right e S1' S1 ->
-             (pt_left e S1' S1 -> pt_left e (fold_left abs_removal rs S1') (fold_left abs_removal rs S1)) /\
-             (pt_left e (fold_left abs_removal rs S1') (fold_left abs_removal rs S1) \/
-              pt_right e (fold_left abs_removal rs S1') (fold_left abs_removal rs S1))).
-  { induction rs as [|r t IH]; intros S1' S1 H; cbn [fold_left]; [auto|].
-    destruct (pt_removal e r S1' S1 H) as (A & B & _). destruct (IH _ _ B) as [A2 B2]. split; [intros HL; apply A2, A, HL|exact B2]. }
-  assert (Hc : forall cs S1' S1, pt_left e S1' S1 \/ pt_right e S1' S1 ->
-             (pt_left e S1' S1 \/ In e (map fst cs)) -> pt_left e (fold_left abs_change cs S1') (fold_left abs_change cs S1)).
-  { induction cs as [|ch t IH]; intros S1' S1 H Hf; cbn [fold_left].
-    - destruct Hf as [Hf|[]]. exact Hf.
-    - destruct (pt_change e ch S1' S1 H) as (A & B & C). apply (IH _ _ B). cbn [map In] in Hf.
-      destruct Hf as [Hf|[Hf|Hf]]; [left; exact (A Hf)|left; apply C; symmetry; exact Hf|right; exact Hf]. }
-  destruct (Hd (u_despawns u) S' S H0) as [D1 D2].
-  destruct (Hr (u_removals u) _ _ D2) as [R1 R2].
-  apply (Hc (u_changes u) _ _ R2). destruct Hfin as [HL|Hin]; [left; apply R1, D1, HL|right; exact Hin].
+  destruct (pt_despawns e (u_despawns u) S' S H0) as [D1 D2].
+  destruct (pt_removals e (u_removals u) _ _ D2) as [R1 R2].
+  apply (pt_changes e (u_changes u) _ _ R2). destruct Hfin as [HL|Hin]; [left; apply R1, D1, HL|right; exact Hin].
 Qed.
 
 (* ================================================================== *)
 (* 3. THEOREM (client step, with pre-spawn mappings)                  *)
 (* ================================================================== *)
 
+(* [maps_pre c u] is the state the mappings of [u] are applied to: the despawn records of the message have been applied
+   (before the repair of defect D30 the mappings came first and the premise was about `set_upd_tick c (u_tick u)`) *)
 Theorem update_message_struct_maps c u c' :
-  cs_inv c -> maps_ok (set_upd_tick c (u_tick u)) (u_maps u) ->
+  cs_inv c -> maps_ok (maps_pre c u) (u_maps u) ->
   (forall e, In e (map fst (u_maps u)) -> In e (map fst (u_changes u))) ->
   apply_update_message c u = Ok c' ->
   struct_equiv (client_struct c') (abs_apply (client_struct c) u) /\ cs_inv c' /\ cl_upd_tick c' = u_tick u.
 Proof.
   intros Hinv Hok Hch H. pose proof (update_tick_follows_messages c u c' H) as Ht.
-  unfold apply_update_message in H. cbv zeta in H.
+  unfold apply_update_message in H. cbv zeta in H. unfold maps_pre in Hok.
   set (c0 := set_upd_tick c (u_tick u)) in *.
   assert (Hinv0 : cs_inv c0) by (revert Hinv; apply cs_inv_ext; reflexivity).
-  destruct (maps_fold (u_maps u) c0 Hinv0 Hok) as [Hinv1 Hg1]. cbv zeta in Hinv1, Hg1.
-  set (c1 := fold_left (fun c m => apply_entity_mapping c (fst m) (snd m)) (u_maps u) c0) in *.
-  destruct (despawns_struct (u_despawns u) c1 (client_struct c1) Hinv1 (srel_self c1 (cs_inv_nodup c1 Hinv1))) as [Hinv2 Hrel2].
+  assert (Hrel0 : srel c0 (client_struct c)).
+  { apply (srel_ext c c0); [reflexivity|reflexivity|]. exact (srel_self c (cs_inv_nodup c Hinv)). }
+  destruct (despawns_struct (u_despawns u) c0 (client_struct c) Hinv0 Hrel0) as [Hinv1 Hrel1].
+  set (c1 := fold_left apply_despawn (u_despawns u) c0) in *.
+  destruct (maps_fold (u_maps u) c1 Hinv1 Hok) as [Hinv2 Hg2]. cbv zeta in Hinv2, Hg2.
+  set (c2 := fold_left (fun c m => apply_entity_mapping c (fst m) (snd m)) (u_maps u) c1) in *.
   apply bind_ok in H. destruct H as [r3 [E3 H]].
-  destruct (removals_struct _ _ _ _ _ Hinv2 Hrel2 E3) as (c3 & -> & Hinv3 & Hrel3).
+  destruct (removals_struct _ _ _ _ _ Hinv2 (srel_self c2 (cs_inv_nodup c2 Hinv2)) E3) as (c3 & -> & Hinv3 & Hrel3).
   apply bind_ok in H. destruct H as [r4 [E4 H]].
   destruct (changes_struct _ _ _ _ _ Hinv3 Hrel3 E4) as (c4 & -> & Hinv4 & Hrel4).
   inversion H; subst c'. split; [|split; [exact Hinv4|exact Ht]].
-  apply (struct_equiv_trans _ (abs_apply (client_struct c1) u)).
-  - apply srel_struct_equiv; [exact (cs_inv_nodup c4 Hinv4)|exact Hrel4].
-  - intros e. change (pt_left e (abs_apply (client_struct c1) u) (abs_apply (client_struct c) u)).
-    assert (Hpt : pt_left e (client_struct c1) (client_struct c) \/
-                  (In e (map fst (u_maps u)) /\ pt_right e (client_struct c1) (client_struct c))).
-    { unfold pt_left, pt_right. rewrite (al_get_client_struct c1 e (cs_inv_nodup c1 Hinv1)), (al_get_client_struct c e (cs_inv_nodup c Hinv)).
-      change (cs_get c e) with (cs_get c0 e).
-      destruct (Hg1 e) as [G|(Gin & Gn & Gs)]; [left; rewrite G; apply opt_equiv_refl|].
-      right. split; [exact Gin|]. split; [exact Gn|]. exists []. split; [exact Gs|apply kinds_equiv_refl]. }
-    apply pt_apply.
-    + destruct Hpt as [Hl|[_ Hr]]; [left; exact Hl|right; exact Hr].
-    + destruct Hpt as [Hl|[Hin _]]; [left; exact Hl|right; exact (Hch e Hin)].
+  eapply struct_equiv_trans; [apply srel_struct_equiv; [exact (cs_inv_nodup c4 Hinv4)|exact Hrel4]|].
+  intros e. unfold abs_apply. set (D := fold_left abs_despawn (u_despawns u) (client_struct c)) in *.
+  change (pt_left e (fold_left abs_change (u_changes u) (fold_left abs_removal (u_removals u) (client_struct c2)))
+                    (fold_left abs_change (u_changes u) (fold_left abs_removal (u_removals u) D))).
+  assert (Hpt : pt_left e (client_struct c2) D \/ (In e (map fst (u_maps u)) /\ pt_right e (client_struct c2) D)).
+  { unfold pt_left, pt_right. rewrite (al_get_client_struct c2 e (cs_inv_nodup c2 Hinv2)).
+    pose proof (Hrel1 e) as H1.
+    destruct (Hg2 e) as [G|(Gin & Gn & Gs)]; [left; rewrite G; exact H1|].
+    right. split; [exact Gin|]. rewrite Gn in H1. split; [destruct (al_get e D); [destruct H1|reflexivity]|].
+    exists []. split; [exact Gs|apply kinds_equiv_refl]. }
+  assert (H0 : pt_left e (client_struct c2) D \/ pt_right e (client_struct c2) D) by (destruct Hpt as [Hl|[_ Hr]]; auto).
+  destruct (pt_removals e (u_removals u) _ _ H0) as [R1 R2].
+  apply (pt_changes e (u_changes u) _ _ R2). destruct Hpt as [Hl|[Hin _]]; [left; exact (R1 Hl)|right; exact (Hch e Hin)].
 Qed.
 
 (* the usual case: one mapping *)
 Corollary update_message_struct_one_map c u c' e pc :
-  cs_inv c -> u_maps u = [(e, pc)] -> map_step_ok c e pc -> In e (map fst (u_changes u)) ->
+  cs_inv c -> u_maps u = [(e, pc)] -> map_step_ok (maps_pre c u) e pc -> In e (map fst (u_changes u)) ->
   apply_update_message c u = Ok c' ->
   struct_equiv (client_struct c') (abs_apply (client_struct c) u) /\ cs_inv c' /\ cl_upd_tick c' = u_tick u.
 Proof.
